@@ -200,7 +200,7 @@ def transform(text, it_kind, spec: ItemSpec, log):
                 log.append({'rule': 'T0', 'item': name, 'what': 'dropped line `%s`' % s}); continue
             if i == 0 and not s.startswith('pub '):
                 l = l.replace(s, 'pub ' + s, 1)
-            elif i > 0 and re.match(r'^[a-z_]\w*\s*:', s):
+            elif i > 0 and it_kind == 'struct' and re.match(r'^[a-z_]\w*\s*:', s):
                 l = l.replace(s, 'pub ' + s, 1)
             out.append(l)
         text = '\n'.join(out)
@@ -225,6 +225,17 @@ def transform(text, it_kind, spec: ItemSpec, log):
             if n != count:
                 raise WeaveError('lost anchor: regex rewrite matched %d times (expected %d) in %s: %r' % (n, count, name, old))
         log.append({'rule': 'T5' if kind == 'lit' else 'T5re', 'item': name, 'before': old, 'after': new, 'count': count})
+    if it_kind == 'fn':
+        # T3: panics are renamed by the prefix of their message literal; the local macros map them to abort shims:
+        #   "BUG..."  -> bug_panic!  (shim `requires false`: must be proved unreachable)
+        #   diagnosed violations -> diag_panic!  (shim `ensures false`: the build aborts)
+        n1 = len(re.findall(r'\bpanic!\(\s*"BUG', text)); n2 = len(re.findall(r'\bpanic!\(\s*"(Hidden dependency|Overlapping write|Cyclic task dependency)', text))
+        if n1:
+            text = re.sub(r'\bpanic!\((\s*)"BUG', r'bug_panic!(\1"BUG', text)
+            log.append({'rule': 'T3', 'item': name, 'what': '%d x panic!("BUG…") -> bug_panic!' % n1})
+        if n2:
+            text = re.sub(r'\bpanic!\((\s*)"(Hidden dependency|Overlapping write|Cyclic task dependency)', r'diag_panic!(\1"\2', text)
+            log.append({'rule': 'T3', 'item': name, 'what': '%d x diagnostic panic! -> diag_panic!' % n2})
     # T2b: loop headers: `{` on its own line
     out = []
     for l in text.split('\n'):
